@@ -626,14 +626,25 @@ theorem parseLines_writes (cfg : Document.Cfg) (ti : Bool) (hb : cfg.block = dcf
 open Mistletoe.Html Mistletoe.Escape
 open Mistletoe.InertInline (flat_append flat_prose)
 
+/-- `<p>`, the stripped lines joined by "\n" and HTML-escaped, `</p>` -/
+def paraHtml (q : Quotes) (ls : List Str) : Str :=
+  "<p>".toList ++ escapeHtmlText q.dq q.sq (joinNl (ls.map strip)) ++ "</p>".toList
+/-- `<hN>`, the escaped text, `</hN>` -/
+def headHtml (q : Quotes) (lv : Nat) (t : Str) : Str :=
+  '<' :: 'h' :: natDigits lv ++ ['>'] ++ escapeHtmlText q.dq q.sq t ++ '<' :: '/' :: 'h' :: natDigits lv ++ ['>']
+def hrHtml : Str := "<hr />".toList
+/-- `<blockquote>`, newline, the children (each already followed by a newline), `</blockquote>` -/
+def quoteHtml (inner : Str) : Str :=
+  ['<', 'b', 'l', 'o', 'c', 'k', 'q', 'u', 'o', 't', 'e', '>', '\n'] ++ inner ++
+    ['<', '/', 'b', 'l', 'o', 'c', 'k', 'q', 'u', 'o', 't', 'e', '>']
+
 mutual
-/-- the HTML of one node: `<p>`/`<hN>` around the escaped text, `<hr />`, `<blockquote>` around the
-    children, each followed by a newline -/
+/-- the HTML of one node -/
 def htmlNode (q : Quotes) : T → Str
-  | .para ls => "<p>".toList ++ escapeHtmlText q.dq q.sq (joinNl (ls.map strip)) ++ "</p>".toList
-  | .heading lv t => '<' :: 'h' :: natDigits lv ++ ['>'] ++ escapeHtmlText q.dq q.sq t ++ '<' :: '/' :: 'h' :: natDigits lv ++ ['>']
-  | .hr _ => "<hr />".toList
-  | .quote kids => "<blockquote>\n".toList ++ htmlKids q kids ++ "</blockquote>".toList
+  | .para ls => paraHtml q ls
+  | .heading lv t => headHtml q lv t
+  | .hr _ => hrHtml
+  | .quote kids => quoteHtml (htmlKids q kids)
 /-- nodes, each followed by a newline -/
 def htmlKids (q : Quotes) : List T → Str
   | [] => []
@@ -650,21 +661,26 @@ theorem flatEv_nl : flatEv nl = ['\n'] := rfl
 mutual
 theorem flat_blockOf (q : Quotes) : ∀ (t : T) (n : Nat), flat (renderBlock q false (blockOf n t)) = htmlNode q t
   | .para ls, n => by
-    simp only [blockOf, htmlNode]
+    simp only [blockOf, htmlNode, paraHtml]
     simp only [renderBlock, Bool.false_eq_true, if_false, flat_append, flat_prose]
     simp [flat, flatEv, flatAttrs]
   | .heading lv t, n => by
-    simp only [blockOf, htmlNode]
-    simp only [renderBlock, renderInlines, renderInline, flat_append, flat_cons, flat_nil,
+    simp only [blockOf, htmlNode, headHtml]
+    simp only [renderBlock, renderInlines, renderInline, flat_cons, flat_nil,
       flatEv, flatAttrs, List.append_nil, List.append_assoc, List.cons_append, List.nil_append]
   | .hr c, n => by
-    simp only [blockOf, htmlNode]
+    simp only [blockOf, htmlNode, hrHtml]
     simp only [renderBlock]
     decide
   | .quote kids, n => by
     simp only [blockOf, htmlNode]
     simp only [renderBlock, flat_append, flat_afterEach q kids n]
-    simp [flat, flatEv, flatAttrs, nl]
+    generalize htmlKids q kids = x
+    have h1 : flat [Ev.otag "blockquote".toList [], nl] = ['<', 'b', 'l', 'o', 'c', 'k', 'q', 'u', 'o', 't', 'e', '>', '\n'] := by
+      decide +kernel
+    have h2 : flat [Ev.ctag "blockquote".toList] = ['<', '/', 'b', 'l', 'o', 'c', 'k', 'q', 'u', 'o', 't', 'e', '>'] := by
+      decide +kernel
+    rw [h1, h2, quoteHtml]
 theorem flat_afterEach (q : Quotes) : ∀ (ts : List T) (n : Nat),
     flat (renderAfterEach q false (blocksOf n ts)) = htmlKids q ts
   | [], _ => by simp [blocksOf, renderAfterEach, htmlKids, flat]
@@ -677,18 +693,20 @@ end
 theorem flat_sep_afterEach (q : Quotes) (s : Bool) : ∀ (bs : List Mistletoe.Block), bs ≠ [] →
     flat (renderSep q s bs) ++ ['\n'] = flat (renderAfterEach q s bs)
   | [], h => absurd rfl h
-  | [b], _ => by simp [renderSep, renderAfterEach, flat_append, flat, flatEv, nl]
+  | [b], _ => by simp [renderSep, renderAfterEach, flat, flatEv, nl]
   | b :: b' :: rest, _ => by
     have ih := flat_sep_afterEach q s (b' :: rest) (by simp)
     simp only [renderSep, renderAfterEach, flat_append] at ih ⊢
     rw [List.append_assoc, List.append_assoc, ih]
     simp [List.append_assoc]
 
+theorem quoteHtml_ne (x : Str) : quoteHtml x ≠ [] := by simp [quoteHtml]
+
 theorem htmlNode_ne (q : Quotes) : ∀ (t : T), htmlNode q t ≠ []
-  | .para _ => by simp [htmlNode]
-  | .heading _ _ => by simp [htmlNode]
-  | .hr _ => by simp [htmlNode]
-  | .quote _ => by simp [htmlNode]
+  | .para _ => by simp [htmlNode, paraHtml]
+  | .heading _ _ => by simp [htmlNode, headHtml]
+  | .hr _ => by simp [htmlNode, hrHtml]
+  | .quote _ => by simp only [htmlNode]; exact quoteHtml_ne _
 
 /-- **the HTML renderer on the expected document** -/
 theorem render_blocksOf (o : Opts) (ts : List T) (hne : ts ≠ []) (fn : List (Str × Str × Str)) :
@@ -716,4 +734,47 @@ theorem render_blocksOf (o : Opts) (ts : List T) (hne : ts ≠ []) (fn : List (S
   have : flat [nl] = ['\n'] := rfl
   rw [this, flat_sep_afterEach o.q false _ (by rw [hk]; simp), flat_afterEach]
   rfl
+
+/-! ### From the text as one `str`, and the bundled HTML configuration -/
+
+/-- **`Document(text)`** for the written lines concatenated into one string -/
+theorem parse_writes (cfg : Document.Cfg) (ti : Bool) (hb : cfg.block = dcfg ti)
+    (ht : ∀ t ∈ cfg.span, inertClass t = true) (hc : cfg.span.count .lineBreak = 1)
+    (ts : List T) (h : T.oks ts = true) (hne : ts ≠ []) (g : Nat) :
+    Document.parse cfg (needs ts + g) (writes ts).flatten = .ok { kids := blocksOf 1 ts, footnotes := [] } := by
+  rw [InertInline.parse_lines cfg _ (writes ts) (fun l hl => lineOk_oneLine ((writes_lineOk ts h).1 l hl))]
+  exact parseLines_writes cfg ti hb ht hc ts h hne g
+
+/-- the configuration the HTML renderer installs in the working tree (regenerated from /repo) has the
+    default block token list and a span token list of covered classes with `LineBreak` once -/
+theorem html_config (cfg : Document.Cfg) (h : Config.html = some cfg) :
+    cfg.block = dcfg cfg.block.tableInterrupt ∧ (∀ t ∈ cfg.span, inertClass t = true) ∧ cfg.span.count .lineBreak = 1 := by
+  have h1 := Props.C14.C14_config_current.1
+  have h2 := Props.C14.C14_config_covered cfg (Or.inl h)
+  rw [h] at h1
+  simp only [Option.map_some, Option.some.injEq] at h1
+  refine ⟨?_, h2.2.1, h2.2.2⟩
+  cases hb : cfg.block with
+  | mk types ti =>
+    rw [hb] at h1
+    simp only at h1
+    subst h1
+    rfl
+
+/-- **end to end**: `HtmlRenderer(**opts).render(Document(text))` on the written text is the HTML written
+    directly from the tree -/
+theorem renderHtml_writes (o : Opts) (ts : List T) (h : T.oks ts = true) (hne : ts ≠ []) (g : Nat) :
+    Config.renderHtml o (needs ts + g) (writes ts).flatten = some (htmlOf o ts) := by
+  unfold Config.renderHtml
+  cases hc : Config.html with
+  | none =>
+    have := Props.C14.C14_config_current.1
+    rw [hc] at this
+    cases this
+  | some cfg =>
+    obtain ⟨hb, ht, hcnt⟩ := html_config cfg hc
+    simp only
+    rw [parse_writes cfg _ hb ht hcnt ts h hne g]
+    simp only
+    rw [render_blocksOf o ts hne]
 end Mistletoe.Compose
